@@ -45,6 +45,7 @@ class Interp:
         self.share_partial = False
         self.late_args = True                 # see st_call
         self.late_linked = 0
+        self.node_wires = True   # hand output 0 of a node over as the Node itself now and then
         self.arg_links = []      # (hugr, source out port, node, input position) as the statements asked
         self.static_links = []   # (hugr, function node, call node, expected static input offset)
         self._shared_ops: dict[str, object] = {}
@@ -57,7 +58,19 @@ class Interp:
         return self.tb.row(r)
 
     def wires(self, ids):
-        return [self.w[i] for i in ids]
+        """the wires of these ids; every third wire that is output 0 of its node is handed over as the Node itself (a
+        node used as a wire means its output 0)"""
+        from hugr import OutPort
+
+        out = []
+        for i in ids:
+            w = self.w[i]
+            self._wire_uses = getattr(self, "_wire_uses", 0) + 1
+            if self.node_wires and type(w) is OutPort and w.offset == 0 and self._wire_uses % 3 == 0:
+                w = w.node
+                self.nodes_as_wires = getattr(self, "nodes_as_wires", 0) + 1
+            out.append(w)
+        return out
 
     def make_op(self, ref):
         from hugr import ops, tys
